@@ -117,3 +117,45 @@ func TestZZReplay(t *testing.T) {
 		},
 	})
 }
+
+func init() {
+	// Server.Start: blocking channel send while holding the server lock
+	replayTemplates = append(replayTemplates, replayTemplate{
+		match: func(o *Obligation) bool {
+			return (o.Fn == "replica.Server.Start" || o.Fn == "replica/rest.Server.StartReplica") && strings.HasPrefix(o.Kind, "block-under-lock")
+		},
+		scripted: true,
+		pkg:      "replica",
+		tags:     "debug",
+		gen: func(o *Obligation, vals map[string]string) (string, bool) {
+			return `package replica
+
+import (
+	"io/ioutil"
+	"os"
+	"testing"
+	"time"
+)
+
+func TestZZReplay(t *testing.T) {
+	dir, _ := ioutil.TempDir("", "zzreplay")
+	defer os.RemoveAll(dir)
+	s := NewServer("127.0.0.1:0", dir, 4096, "Backend")
+	// nobody drains ActionChannel (the sync loop reads it only while registering): send capacity+1 start requests
+	for i := 0; i < cap(ActionChannel)+1; i++ {
+		go s.Start("start")
+	}
+	time.Sleep(500 * time.Millisecond)
+	done := make(chan bool, 1)
+	go func() { s.RLock(); s.RUnlock(); done <- true }() // what every WriteAt/ReadAt does first
+	select {
+	case <-done:
+		t.Log("REPLAY-NOT-REPRODUCED")
+	case <-time.After(2 * time.Second):
+		t.Fatalf("REPLAY-REPRODUCED: after %d undrained start requests the server lock is held forever by a handler blocked on ActionChannel; all I/O on the replica is wedged", cap(ActionChannel)+1)
+	}
+}
+`, true
+		},
+	})
+}
